@@ -3,8 +3,8 @@
 //verif:stub openKV vOpenKV
 //verif:native-timeout 120000
 //verif:assume purge drivers end to end over in-memory stores (as C14's end-to-end harness: real PurgeBuildReverseIndex / PurgeDeleteUnused, openKV routed to the in-memory KV model symbolically, real pebble natively); faults: the solver picks one store call (any call on the metadata or blob store, reads and listings included) of the index build or of delete-unused that fails once (transient), or the mutating call at which the index build dies (fail-stop, landed or not) after which the build is resumed with --resume on a fresh local KV store
-//verif:assume world as in C14: two committed bundles sharing a file, the blobs of a deleted bundle, one bundle uploaded after the index build; index chunk size 2 (so several chunks exist); one variant with 12 keys at one key per chunk and a crash after the tenth chunk; listings returning full pages or at most two keys per page; in the crash variants the late bundle's blobs are written before the resume (an interrupted upload) and the bundle is committed after it
-//verif:cover VerifC13PurgeFaults upload-between-crash-and-resume short-listing-pages resumed-after-ten-chunks fault-in-build fault-in-delete build-crashed-and-resumed reported-failure-retried late-upload-reuses-orphaned-blobs two-repositories extra-context
+//verif:assume world as in C14: two committed bundles sharing a file, the blobs of a deleted bundle, one bundle uploaded after the index build; index chunk size 2 (so several chunks exist); one variant with 12 keys at one key per chunk and a crash after the tenth chunk; listings returning full pages or at most two keys per page; in the crash variants the late bundle's blobs are written before the resume and the bundle is committed after it (an interrupted upload retried as a whole, or one long upload whose metadata lands after the resumed build)
+//verif:cover VerifC13PurgeFaults upload-between-crash-and-resume short-listing-pages resumed-after-ten-chunks fault-in-build fault-in-delete build-crashed-and-resumed reported-failure-retried late-upload-reuses-orphaned-blobs two-repositories extra-context upload-in-flight-across-the-resume
 package core
 
 import (
@@ -89,7 +89,13 @@ func VerifC13PurgeFaults() {
 		if chunkStored {
 			vCover("upload-between-crash-and-resume")
 			vNextSecond()
-			w.uploadBlobsOnly(lateContent)
+			if vChoose("uploadInFlight", 2) == 1 {
+				// one long upload: its blobs land now, its bundle metadata only after the resumed build
+				vCover("upload-in-flight-across-the-resume")
+				w.uploadPending(map[string]string{"late": lateContent}, []string{"late"})
+			} else {
+				w.uploadBlobsOnly(lateContent) // an interrupted upload, retried as a whole below
+			}
 		}
 		vNextSecond()
 		vAssert(build("kv-build-2", true) == nil, "resumed-build-succeeds")
@@ -108,7 +114,11 @@ func VerifC13PurgeFaults() {
 	}
 	// a bundle uploaded after the index build started
 	vNextSecond()
-	w.upload(map[string]string{"late": lateContent}, []string{"late"})
+	if w.pending != nil {
+		w.commitPending()
+	} else {
+		w.upload(map[string]string{"late": lateContent}, []string{"late"})
+	}
 	vNextSecond()
 	if mode == 1 {
 		cr.install()
